@@ -54,7 +54,8 @@ def sim_env(sched_desc=None, knob_values=None, faults=None, glob_seed=None, kill
     """Install scheduler, knobs and FS seam; yields (scheduler, fs)."""
     sch = make_scheduler(sched_desc)
     fs = fsfault.FS(plan=faults, glob_seed=glob_seed, killable=killable, report_path=report_path)
-    saved = schedmod.install(sch)
+    # mode "real": leave joblib's own thread pool in place (stub-fidelity self-test only)
+    saved = {} if (sched_desc or {}).get("mode") == "real" else schedmod.install(sch)
     try:
         knobmod.set_knobs({k: v for k, v in (knob_values or {}).items()})
         fs.install()
